@@ -20,7 +20,8 @@ PLANS['C01'] = dict(
     rule='Seeded random histories over generated interface DAGs and class DAGs (multiple inheritance): '
          'class creation with/without decorators, instance creation, implementer, implementer_only, '
          'classImplements, classImplementsOnly, classImplementsFirst, directlyProvides, alsoProvides, '
-         'noLongerProvides, provider, gc.  After every step every live class and instance is queried '
+         'noLongerProvides, provider, gc; class specifications among direct declarations, callable instances declared as factories, '
+         'declarations on ``object``; histories queried after every step, only now and then, or only at the end.  At a check point every live class and instance is queried '
          '(providedBy, implementedBy, I.providedBy, I.implementedBy, directlyProvidedBy) and compared with '
          'the must/may reference model.  evaluations = oracle comparisons.  A history is non-trivial when it '
          'narrows a class with an *only* form or declares on a class that already has subclasses or '
@@ -34,7 +35,7 @@ PLANS['C19'] = dict(
                         'histories_changed_after_first_super_query': 20},
     rule='Same histories as C01; after a seeded subset of steps every (C, ob) pair along every MRO is queried: '
          'providedBy(super(C, ob)), implementedBy(super(C, ob)), I.providedBy(proxy) and '
-         'registry.queryAdapter(proxy, ITarget) with recording factories; expected = must/may bounds of the '
+         'registry.queryAdapter(proxy, ITarget) and queryMultiAdapter((proxy,), ITarget) with recording factories; expected = must/may bounds of the '
          'classes strictly after C in the MRO; the factory must be the first registered one along the proxy '
          'specification order and must receive the underlying object.  Non-trivial: a class declaration '
          'changed after the first proxy query (warm per-class cache) and some MRO has >= 3 classes.',
@@ -46,7 +47,8 @@ PLANS['C20'] = dict(
     engine='algebra', level='exploration', jobs=lambda tier: both(tier, (16, 600), (16, 6000)),
     minimums=lambda t: {'pairs': 5000, 'pairs_A_extends_B': 300, 'pairs_B_extends_A': 300, 'noLongerProvides': 100},
     rule='Declarations built from arbitrarily nested argument sequences (tuples, lists, Declarations, class '
-         'specifications, duplicates) over generated interface DAGs; for every declaration: iteration, membership, '
+         'specifications, duplicates, one-shot iterables) over generated interface DAGs, plus the shared empty declaration and an equal-keyed '
+         'redefinition of an interface as operands; for every declaration: iteration, membership, '
          'flattened(); for every ordered pair (plus single-interface operands): A-B, A+B and operand immutability, '
          'against list algebra over DFS reachability.  evaluations = oracle comparisons.  Non-trivial: the world has a '
          'pair of operands related by extension; distinct = distinct (length, nesting depth, ancestor-count profile).',
@@ -76,7 +78,8 @@ PLANS['C02'] = dict(
                         'twin_comparisons': 2000, 'dependents_collected': 5, 'super_queries_between_rebasings': 50,
                         'providedBy_asked_of_non_interface_specifications': 1000, 'falsy_interfaces': 50},
     rule='Random graphs of interfaces, plain Declarations, class declarations and instance declarations; random '
-         '__bases__ reassignments (direct and through the declaration API) at any depth, leaf dependents dropped and '
+         '__bases__ reassignments (direct and through the declaration API) at any depth, equal-keyed twin interfaces swapped in and out, '
+         'super() queries in between, interfaces that are false in a boolean context, leaf dependents dropped and '
          'collected; after every mutation every ordered pair of live specifications (+ root, empty declaration, foreign '
          'interface) is compared with DFS reachability over current __bases__, and (non-strict) every __sro__ with '
          'that of a freshly built twin graph.  Non-trivial: some rebasing changed the reach set of an indirect '
@@ -134,7 +137,8 @@ PLANS['C07'] = dict(
     minimums=lambda t: {'subscription_queries': 8000, 'order_pairs': 3000, 'results_from_2plus_registries': 100,
                         'results_with_2plus_keys_in_one_registry': 200, 'unsubscribe_value': 100, 'unsubscribe_all': 100,
                         'unsubscribe_with_None_required': 50, 'adapter_mutations_between_subscriptions': 500},
-    rule='Random subscribe/unsubscribe histories (duplicates, equal-but-distinct values, handlers, arity 0-3, chains) and '
+    rule='Random subscribe/unsubscribe histories (duplicates, equal-but-distinct and falsy values, handlers, arity 0-3, chains, keys written '
+         'with None, adapters registered/overwritten/unregistered on the same provided interfaces, lookup() and lookupAll() next to the queries) and '
          'subscriptions() queries compared with a ledger: multiset equality by identity plus pairwise order rules '
          '(base registry first, less specific key first, FIFO for identical keys).  Non-trivial: result with entries from '
          '>= 2 different keys or registries; distinct = distinct (arity, size, registries, keys) result shapes.',
@@ -146,8 +150,9 @@ PLANS['C08'] = dict(
                         'subscriber_calls_checked': 200, 'super_proxy_keys': 20, 'subscriber_results_falsy_not_none': 100,
                         'changes_between_rounds[registry]': 500, 'changes_between_rounds[class]': 100,
                         'single_object_warmups_before_multi_keys': 100},
-    rule='For a registry state and key, all nine entry points are called in a seeded order (each observed cold, '
-         'warm-by-itself, warm-by-another) and compared with lookup()/subscriptions() of the same registry; recording '
+    rule='For a registry state and key, the entry points are called in two rounds (a seeded subset, then - after a registration above, a class '
+         'or an object declaration - all nine in a new order; each observed cold, warm-by-itself, warm-by-another; the entry point under '
+         'test is called before its reference) and compared with lookup()/subscriptions() of the same registry; recording '
          'factories check arguments (super proxies unwrapped) and None results; non-string names must raise ValueError.  '
          'Non-trivial: key with >= 1 registered name; distinct = distinct (arity, names, entry-point order prefix).',
     assumptions=_REG_ASSUME,
@@ -157,7 +162,7 @@ PLANS['C09'] = dict(
     minimums=lambda t: {'evaluations': 20000, 'rebuilds': 50, 'replay_probes': 200, 'removals_with_sibling_left': 100,
                         'bookkeeping_queries_with_None_required': 500},
     rule='Random register/unregister/subscribe/unsubscribe/rebuild histories (overwrites, identical re-registration, '
-         'register(None), unregister with identical/equal/other value, shared key prefixes) compared after every step '
+         'register(None), unregister with identical/equal/other value, shared key prefixes, falsy values, keys written with None) compared after every step '
          'with a ledger through registered/allRegistrations/allSubscriptions/subscribed; periodically a replayed twin and '
          'rebuild() must answer unambiguous probes identically.  Non-trivial: history overwrites an entry or removes one '
          'while a sibling under the same required prefix stays; distinct = distinct op-kind sequences.',
@@ -176,7 +181,8 @@ PLANS['C05'] = dict(
                                                               'registry_bases', 'spec_bases', 'class_declaration', 'object_declaration')]),
     rule='Histories interleaving all nine lookup entry points with all eight mutation kinds (register/unregister/subscribe/'
          'unsubscribe on any registry of the chain, registry __bases__, required-interface __bases__, class declarations, '
-         'object declarations); after every mutation every remembered key and fresh keys are asked of the warm registry and '
+         'object declarations; also rebuild(), bursts of several mutations, a change in a newly acquired ancestor right after a re-basing); '
+         'after every burst every remembered key and fresh keys are asked of the warm registry and '
          'of a cold registry built by replaying the full mutation log; answers must be identical (values by identity, sequences '
          'in order).  Non-trivial: a mutation changed the cold answer of a key that had been looked up before; distinct = '
          'distinct mutation-kind sequences.  pair[entry,kind] counters give the crossing matrix.',
@@ -187,7 +193,8 @@ PLANS['C06'] = dict(
     minimums=lambda t: {'ro_invariant_checks': 3000, 'behaviour_probes': 8000, 'rebasings': 300,
                         'rebasings_changing_a_descendant_chain': 60, 'probes_answered_by_an_ancestor': 500,
                         'components_probes': 500, 'components_rebasings': 100},
-    rule='Registry DAGs (1-5 members, chains and diamonds, one flavour per world) with distinguishing registrations and '
+    rule='Registry DAGs (1-5 members, chains and diamonds, one flavour per world; a fifth of the worlds may re-base into base lists without a '
+         'C3 order, where a freshly built registry graph is the reference) with distinguishing registrations and '
          'subscriptions in every member; random __bases__ reassignments of any member and registrations in any member; after '
          'every step, from EVERY member: registry.ro must equal the C3 order of the current __bases__ graph, and lookup / '
          'lookupAll names / subscriptions must equal the C04/C07 reference model evaluated over that C3 order; the same for '
@@ -255,7 +262,8 @@ PLANS['C13'] = dict(
     rule='Generated module files (interfaces with sentinel attribute names/docstrings; classes in every declaration shape: '
          'plain, decorated, implementer_only, classImplementsOnly after the fact, classImplementsFirst, narrowed-then-extended, '
          'provider, old-style __implemented__ attribute; built-in / extension types declared with classImplementsOnly) imported under unique names; every interface, class specification, class provides-declaration, instance '
-         'provides-declaration (direct/also/after noLongerProvides) and carrier instance is round-tripped through pickle protocols '
+         'provides-declaration (direct/also/after noLongerProvides; class-level ones changed after the fact; instance ones after their class '
+         'was narrowed) and carrier instance is round-tripped through pickle protocols '
          '0-5 in-process (identity / same interfaces, equality and hash where identity is obtained, opcodes and sentinels inspected) '
          'and the bytes are unpickled again in a second process that imports the same module.  Every case is non-trivial; distinct = '
          'distinct multisets of class declaration shapes.',
@@ -278,7 +286,8 @@ PLANS['C14'] = dict(
          'raises} x alternate in {absent, given, None} x custom __adapt__ in {none} + {own, inherited, inherited via a class that '
          'adds another interfacemethod, inherited two such levels deep} x {returns None, value, raises, delegates to the default}; '
          'for each: I(obj[, alt]) and I.__adapt__(obj); outcome (result identity, exception identity, TypeError args) and exact '
-         'call log vs the reference; plus registry.adapter_hook vs queryAdapter.  exhaustive refers to this finite product.  '
+         'call log vs the reference; plus registry.adapter_hook vs queryAdapter, class objects as adaptees (unbound and classmethod __conform__) '
+         'and hooks that adapt something else before answering.  exhaustive refers to this finite product.  '
          'Non-trivial: at least one callee is expected to run; distinct = distinct (expected call log, outcome kind).',
     assumptions=['adapting a class object whose unbound __conform__ cannot be called counts as "no __conform__" (documented in the source); '
                  'checked in a separate small product together with classmethod __conform__s'],
@@ -329,7 +338,9 @@ PLANS['C16'] = dict(
                         'histories_with_unhashable_components': 20},
     rule='Random histories over the eight register*/unregister* methods of Components (+ re-initialisation) with identical, '
          'equal-but-distinct, hashable and unhashable components, the same component under several names / provided interfaces, '
-         'replacements, related provided interfaces; after every call: return value, the exact event sequence passed to '
+         'replacements, related provided interfaces, falsy components, the factory= / inferred provided, required and name / event=False call '
+         'forms, classes as required specifications, a static base Components in half of the histories (kept at re-initialisation); '
+         'after every call: return value, the exact event sequence passed to '
          'zope.interface.registry.notify (and what the events describe), the four registered*() listings against a ledger, '
          'rebuildUtilityRegistryFromLocalCache() must report nothing to repair, and every query method against fresh '
          'AdapterRegistry objects populated with exactly the ledger.  Non-trivial: a component registered under >= 2 names is '
@@ -384,7 +395,10 @@ PLANS['C11'] = dict(
          'lookup, raise, gc, with/without dict-free-list flood) x ten entry points x two registry flavours, enumerated; per '
          'reached cell: answer oracle (interrupted answer in {cold-before, cold-after}, next call and cold replay give after, '
          'raised exception propagates) and cache-ownership audit (a cache dict with no owner at release time must not be written '
-         'later); leak meters; thread stress with generation-stamped values and a quiescence oracle.  Every reached cell is '
+         'later); leak meters; thread stress with generation-stamped values and a quiescence oracle; mutation-window race (fresh provided '
+         'interfaces registered and removed at every level of a chain and re-basing to another parent, statement-level preemption inside the '
+         'mutation functions, probes by the mutator right after each mutation, permanent entries that every concurrent answer must contain); '
+         'subscription race.  Every reached cell is '
          'non-trivial; distinct = distinct (flavour, point, action, entry) cells + leak scenarios + thread configurations.',
     assumptions=['GIL: preemption happens only where Python code runs', 'valgrind/ASan legs decide reads and freed-memory writes (thorough)'],
 )
@@ -444,7 +458,9 @@ PLANS['C10'] = dict(
     rule='Seeded API programs (declarations, specification queries and rebasing, comparison and hashing, adaptation calls with '
          'hook-list edits and custom __adapt__, registry mutation and every lookup entry point, plus an error-path grammar: '
          'non-string names, unhashable / raising-hash provided, lazy and non-sequence required, objects with odd __provides__/'
-         '__providedBy__/__class__/__conform__, foreign comparison operands, keyword call forms) are executed once under '
+         '__providedBy__/__class__/__conform__, foreign comparison operands, None-named interfaces, keyword call forms, super proxies, repeated '
+         '(cached) lookups through sibling entry points with other defaults, lazy required sequences that change the registry, falsy adapter '
+         'results, Components and verify operations, declaration algebra, descriptors, the lifecycle of a temporary interface) are executed once under '
          'PURE_PYTHON=1 and once with the C accelerator in separate processes; the canonical traces (results, exception types) are '
          'compared step by step; the c side also runs under ASan/UBSan and valgrind in the thorough tier.  evaluations = steps '
          'executed; non-trivial: program with at least one step ending in an exception; distinct = distinct programs.',
